@@ -108,6 +108,11 @@ def run(ctx):
     rnd = [random_path(ctx.rng) for _ in range(ctx.n(1500, 20000))]
     allstr = strings + rnd
     root = tempfile.mkdtemp(prefix="rv-c06root-")
+    # reserved names that already EXIST below the root (cache folders, editor backups, hidden files)
+    for d in (".Radicale.cache", "a/.Radicale.cache/item", "a/b.ics~dir", ".hidden", "a/.Radicale.tmp-x"):
+        os.makedirs(os.path.join(root, d), exist_ok=True)
+    for f in ("a/x~", "a/.Radicale.props", "a/.Radicale.cache/item/e1.ics", "x~", ".Radicale.lock"):
+        open(os.path.join(root, f), "w").close()
     tok = load_check_token_name()
     hexs = "0123456789abcdef"
     toks = []
@@ -245,7 +250,11 @@ def hostile_strings(rng, base, n):
              "/user/cal\\..\\..\\decoy.txt", "/user/cal/..\\..\\decoy.txt", "/user/cal/éè.ics", "/user/cal/" + "x" * 300,
              "/.web/../../decoy.txt", "/.web/..", "/.web/../../../../../../etc/passwd", "/.web/.hidden", "/.web/%2e%2e/decoy.txt",
              "/.well-known/../decoy.txt", "/user/cal/%2e%2e/%2e%2e/decoy.txt", "/user/.Radicale.tmp-abc/collection",
-             "/user//cal//e1.ics", "/user/./cal/./e1.ics", "", "user/cal", "/user/cal/\n.ics", "/user/cal/a\tb.ics"]
+             "/user//cal//e1.ics", "/user/./cal/./e1.ics", "", "user/cal", "/user/cal/\n.ics", "/user/cal/a\tb.ics",
+             "/user/cal/x;touch %s;.ics" % (base + "/pwned"), "/user/cal/$(touch %s).ics" % (base + "/pwned"),
+             "/user/cal/`touch %s`.ics" % (base + "/pwned"), "/user/cal/a b.ics", "/user/cal/x'y.ics", '/user/cal/x"y.ics',
+             "/user/cal/x|y&z.ics", "/user/cal/e1.ics~", "/user/cal/.secret.ics", "/user/cal/.Radicale.props",
+             "/user/cal/.Radicale.cache/item/e1.ics", "/user/cal/.Radicale.cache/history/e1.ics"]
     out = list(fixed)
     while len(out) < n:
         out.append(random_path(rng))
@@ -271,7 +280,7 @@ def _trace_check(ctx, base):
         f.write("DECOY-SECRET-7f3a")
     hooklog = os.path.join(base, "hooklog")
     hook = os.path.join(core.VERIF, "vlib", "drivers", "hookdump") + " %(user)s %(path)s"
-    conf = {"auth": {"type": "none"}, "rights": {"type": "owner_only"},
+    conf = {"auth": {"type": "none"}, "rights": {"type": "vlib.x_rights_all"},
             "storage": {"hook": hook}, "web": {"type": "internal"}}
     rng = ctx.rng
     reqs = []
@@ -291,6 +300,13 @@ def _trace_check(ctx, base):
         dict(method="DELETE", path="/user/cal/e3.ics", login="user:"),
         dict(method="PROPPATCH", path="/user/cal/", data=PROPPATCH_BODY, login="user:"),
         dict(method="OPTIONS", path="/user/", login="user:"),
+    ]
+    secret = EVENT % "RESERVED-SECRET-9c1"
+    base_reqs += [
+        dict(method="__WRITE__", path="collection-root/user/cal/e1.ics~", data=secret),
+        dict(method="__WRITE__", path="collection-root/user/cal/.secret.ics", data=secret),
+        dict(method="__WRITE__", path="collection-root/user/.hiddencol/.Radicale.props", data='{"tag": "VCALENDAR"}'),
+        dict(method="__WRITE__", path="collection-root/user/.hiddencol/s.ics", data=secret),
     ]
     for i, r in enumerate(base_reqs):
         r["mark"] = "base%d" % i
@@ -317,7 +333,12 @@ def _trace_check(ctx, base):
         elif ch == "href":
             r = dict(method="REPORT", path="/user/cal/", data=multiget([s, "/user/cal/e1.ics"]), login="user:")
         elif ch == "token":
+            ups = rng.randrange(3, 9)
+            pad = "../" * ups + "decoy.txt"
+            pad64 = pad[:3] + "/" * (64 - len(pad)) + pad[3:] if len(pad) <= 64 else pad[:64]
             t = rng.choice([s, "http://radicale.org/ns/sync/" + s, "http://radicale.org/ns/sync/../../../decoy.txt",
+                            "http://radicale.org/ns/sync/" + pad64, "http://radicale.org/ns/sync/" + ("a" + "/" * 62 + "b"),
+                            "http://radicale.org/ns/sync/" + ("../" * 21 + "a"),
                             "http://radicale.org/ns/sync/" + "a" * 63 + "/", "http://radicale.org/ns/sync/" + "." * 64,
                             "http://radicale.org/ns/sync/" + "A" * 64])
             r = dict(method="REPORT", path="/user/cal/", data=sync_body(t), login="user:")
@@ -384,7 +405,8 @@ def _trace_check(ctx, base):
             if e.call == "execve":
                 # only the hook (sh -c ...) and what it runs may be executed
                 continue
-            for p in e.paths:
+            at_call = e.call.endswith("at") or e.call.endswith("at2")
+            for p in (e.resolved if (at_call and e.resolved) else e.paths):
                 if not p or p.startswith("/rv-mark/"):
                     continue
                 ap = os.path.normpath(p if p.startswith("/") else os.path.join(folder, p))
@@ -411,6 +433,8 @@ def _trace_check(ctx, base):
                 if inside and e.ret is not None and e.ret >= 0 and is_mut:
                     rel = ap[len(real_folder):].strip("/").split("/")
                     for c in rel:
+                        if c.startswith(".Radicale.tmp-"):
+                            break          # below the storage's own temporary folders (old trees are removed there)
                         if (c.startswith(".") or c.endswith("~")) and not (
                                 c in (".Radicale.cache", ".Radicale.props", ".Radicale.lock") or c.startswith(".Radicale.tmp-")
                                 or c.startswith(".Radicale.lock")):
@@ -418,8 +442,24 @@ def _trace_check(ctx, base):
                                 first_violation = ("creates/changes reserved-looking name %r" % c, r, e)
     ctx.extra["hostile_requests_traced"] = hostile_phases
     # responses must never carry decoy or internal-file content
+    from radicale import pathutils as _pu
+
+    def reserved_target(pth):
+        comps = [c for c in _pu.sanitize_path(pth).strip("/").split("/") if c]
+        if comps and comps[0] in (".web", ".well-known"):
+            return False
+        return any(c.startswith(".") or c.endswith("~") for c in comps)
     for r, res in zip(reqs, results):
         body = res.get("body", "") or ""
+        if "RESERVED-SECRET" in body:
+            first_violation = first_violation or ("content of a reserved file (leading dot / trailing ~) served", r, None)
+        if r.get("channel") == "path" and r["method"] not in ("OPTIONS",) and res.get("status") in (200, 201, 204, 207) \
+                and reserved_target(r["path"]):
+            first_violation = first_violation or ("request on a reserved name answered %s" % res.get("status"), r, None)
+        if r.get("channel") == "dest" and res.get("status") in (201, 204):
+            from urllib.parse import urlparse as _up
+            if reserved_target(_up(r["headers"]["HTTP_DESTINATION"]).path):
+                first_violation = first_violation or ("MOVE onto a reserved name answered %s" % res.get("status"), r, None)
         if "DECOY-SECRET" in body:
             first_violation = first_violation or ("decoy content in response", r, None)
         if r.get("mark", "").startswith("h") and res.get("status") == 200 and r["method"] == "GET":
@@ -434,10 +474,25 @@ def _trace_check(ctx, base):
         with open(hooklog, "rb") as f:
             lines = f.read().split(b"\nHOOK")
         ctx.extra["hook_calls"] = len(lines)
+        croot = os.path.join(folder, "collection-root")
+        allowed = set()
+        for r in reqs:
+            if r["method"].startswith("__"):
+                continue
+            u = (r.get("login") or ":").split(":")[0] or "Anonymous"
+            allowed.add((u, croot))
+            if r["method"] == "PUT":
+                allowed.add((u, croot + _pu.sanitize_path(r["path"])))
+                allowed.add(("Anonymous", croot + _pu.sanitize_path(r["path"])))
+            allowed.add(("Anonymous", croot))
         for ln in lines:
             parts = ln.split(b"\0")[1:]
             if len(parts) != 2:
                 first_violation = first_violation or ("hook received %d arguments instead of 2: %r" % (len(parts), parts[:4]), None, None)
+                break
+            got = (parts[0].decode("utf-8", "surrogateescape"), parts[1].decode("utf-8", "surrogateescape").rstrip("\n"))
+            if got not in allowed:
+                first_violation = first_violation or ("hook arguments %r are not the literal user / path of any request" % (got,), None, None)
                 break
     if first_violation:
         what, r, e = first_violation
